@@ -312,6 +312,15 @@ def isMapRT : Eff → Bool
   | .resliceP _ _ => true
   | _ => false
 
+/-- is `e` a getter read of a Cartesian / polar cache? (a no-op when that cache is populated) -/
+def isFillXY : Eff → Bool
+  | .fillXY _ => true
+  | _ => false
+
+def isFillRT : Eff → Bool
+  | .fillRT _ => true
+  | _ => false
+
 def astep (A : Abs) : Eff → Abs
   | .dataReshape k => { A with shape := .resh k }
   | .dataWrite _ => A
@@ -350,10 +359,12 @@ def astep (A : Abs) : Eff → Abs
   | .guardXY c e =>
       if agetC A c = .none then A
       else if A.link && isMapXY e then astep A e
+      else if A.link && isFillXY e then A      -- guard true ⇒ both Cartesian caches populated ⇒ the getter does nothing
       else { A with fail := true }
   | .guardRT c e =>
       if agetP A c = .none then A
       else if A.linkP && isMapRT e then astep A e
+      else if A.linkP && isFillRT e then A
       else { A with fail := true }
 
 def okC (A : Abs) : AC → Bool
@@ -387,6 +398,21 @@ def KeepsValidity (effs : List Eff) : Bool :=
     | some (some .arith) => true
     | _ => false
 
+/-- what one shape-keeping write to `self.data` does to one stored sample (`none` = NaN): `sel` says whether the
+    sample is addressed by the write, `f` is the arithmetic update, `v` the stored value -/
+def writeSample (w : DataW) (sel : Bool) (f : K → K) (v : Option K) (d : Option K) : Option K :=
+  match w with
+  | .arith => if sel then d.map f else d
+  | .setInvalid => if sel then none else d
+  | .setValue => if sel then v else d
+  | .replace => v
+
+/-- the stored sample after one effect (reshapes are not sample-wise and are excluded by `KeepsValidity`) -/
+def sampleStep (d : Option K) (e : Eff × Bool × (K → K) × Option K) : Option K :=
+  match dataEffect e.1 with
+  | some (some w) => writeSample w e.2.1 e.2.2.1 e.2.2.2 d
+  | _ => d
+
 /-! ## the hand-written effect table (what the driver executes; compared with the real object) -/
 
 def stripEffs : List Eff :=
@@ -401,8 +427,8 @@ def methodEffs : String → Option (List Eff)
   | "read_r" => some [.fillRT .r]
   | "read_t" => some [.fillRT .t]
   | "crop" => some [.dataReshape 0,
-                    .guardXY .x (.reslice .x 0), .guardXY .x (.reslice .y 0),
-                    .guardRT .r (.resliceP .r 0), .guardRT .r (.resliceP .t 0)]
+                    .guardXY .x (.reslice .x 0), .guardXY .x (.fillXY .y), .guardXY .x (.reslice .y 0),
+                    .guardRT .r (.resliceP .r 0), .guardRT .r (.fillRT .t), .guardRT .r (.resliceP .t 0)]
   | "crop_noop" => some []
   | "pad" => some ([.dataReshape 0, .saveDx 0] ++ latcalEffs (.saved 0))
   | "mask" => some [.dataWrite .setInvalid]
